@@ -100,7 +100,7 @@ HARNESS = {
     "h_net":     (["engine/h_net.cpp"], ["smt", "json"], ["-lz3", "-lgmpxx", "-lgmp"], []),
     "h_lang":    (["engine/h_lang.cpp"], ["riddle", "smt", "json"], ["-lgmpxx", "-lgmp"], []),
     "h_prob":    (["engine/h_prob.cpp"], ["solver", "core", "riddle", "smt", "json"], ["-lz3", "-lgmpxx", "-lgmp"], []),
-    "h_exec":    (["engine/h_exec.cpp"], ["executor", "solver", "core", "riddle", "smt", "json"], ["-lgmpxx", "-lgmp"], ["-DBUILD_LISTENERS"]),
+    "h_exec":    (["engine/h_prob.cpp"], ["executor", "solver", "core", "riddle", "smt", "json"], ["-lz3", "-lgmpxx", "-lgmp"], ["-DBUILD_LISTENERS", "-DWITH_EXECUTOR"]),
     "h_par":     (["engine/h_par.cpp"], ["smt", "json"], ["-lgmpxx", "-lgmp", "-lpthread"], []),
 }
 
